@@ -208,3 +208,54 @@ func TestVerifRobustSource(t *testing.T) {
 	}
 	enc.Encode(map[string]int{"summary": 1, "cases": n})
 }
+
+
+// TestVerifRobustLimit: programs whose async blocks never end are run under every step limit 1..N. Whatever the
+// position of the limit relative to the block's start, Execute must return and the block's goroutine must end
+// (it is bounded by the same limit), i.e. the goroutine count returns to where it was.
+func TestVerifRobustLimit(t *testing.T) {
+	sc, enc, done := vOpenIO(t)
+	defer done()
+	maxLimit, _ := strconv.Atoi(os.Getenv("VERIF_MAXLIMIT"))
+	if maxLimit == 0 {
+		maxLimit = 60
+	}
+	n := 0
+	for sc.Scan() {
+		var c rbCase
+		if err := json.Unmarshal(sc.Bytes(), &c); err != nil {
+			t.Fatal(err)
+		}
+		bc := rbBytes(c)
+		for k := 1; k <= maxLimit; k++ {
+			n++
+			base := runtime.NumGoroutine()
+			run := rbMeasure(3*time.Second, func() (bool, string) {
+				m := vm.NewVM()
+				m.SetMaxSteps(k)
+				res, err := m.Execute(append([]byte(nil), bc...))
+				if err != nil {
+					return false, err.Error()
+				}
+				return true, fmt.Sprint(res)
+			})
+			left := 0
+			for w := 0; w < 250; w++ {
+				left = runtime.NumGoroutine() - base
+				if left <= 0 {
+					break
+				}
+				time.Sleep(2 * time.Millisecond)
+			}
+			if run.Kind == "hang" || run.Kind == "panic" || left > 0 {
+				enc.Encode(map[string]interface{}{"cid": c.CID, "limit": k, "run": run, "goroutines_left": left})
+				if left > 0 || run.Kind == "hang" {
+					// a spinning goroutine stays for good: stop here rather than pile them up
+					enc.Encode(map[string]int{"summary": 1, "cases": n, "stopped": 1})
+					return
+				}
+			}
+		}
+	}
+	enc.Encode(map[string]int{"summary": 1, "cases": n})
+}
